@@ -126,6 +126,7 @@ type Contracts struct {
 	Lemmas    []*Lemma
 	SmtRaw    []string
 	SmtFuns   map[string]*SmtFun
+	SmtDup    []string // spec functions defined more than once across the loaded contract files
 	Files     []string
 	NonNil    map[string]bool      // named types whose values are assumed non-nil (listed assumption)
 	GlobalInv map[string][]*Clause // package path -> invariants over init-only package variables
@@ -643,6 +644,10 @@ func (cs *Contracts) scanSmtDecls(text string) {
 			continue
 		}
 		name := toks[i+2]
+		if _, dup := cs.SmtFuns[name]; dup {
+			// two contract files define the same spec function: every VC that sees both is ill-formed
+			cs.SmtDup = append(cs.SmtDup, name)
+		}
 		f := &SmtFun{Name: name}
 		j := i + 3
 		if kw == "declare-const" {
